@@ -149,6 +149,24 @@ func replay(f lib.Flags) int {
 			monitorReg(m, e, c, a)
 		}
 		fmt.Printf("replay %+v\n -> code: %s\n", c, a)
+	case "options":
+		var c optCase
+		if err := json.Unmarshal(raw, &c); err != nil {
+			lib.Fatal(err)
+		}
+		e, ok := findEntry(c.Pkg, c.Router)
+		if !ok {
+			fmt.Printf("replay: router %s.%s no longer exists\n", c.Pkg, c.Router)
+			return 2
+		}
+		var a string
+		panicked, msg := lib.Catch(func() { a = runOptCase(e, c) })
+		if panicked {
+			m.Violate("C12/"+e.id()+"/options/panic", "a router configured with a list of options panicked", c, "no panic", msg)
+		} else {
+			monitorOpt(m, c, a)
+		}
+		fmt.Printf("replay %+v\n -> code: %s\n", c, a)
 	case "reentrant":
 		var c reCase
 		if err := json.Unmarshal(raw, &c); err != nil {
